@@ -42,6 +42,11 @@ def run(ctx):
         mx = max([abs(v) + abs(float(e.t / e.s)) for d in sp["session"] for p in d for v in p] + [1.0])
         npts = max([len(d) for d in sp["session"]] + [1])
         sp["zerotol"] = max(sp["zerotol"], Fraction(mx * npts * 4) / 10 ** 16)
+    # small sessions: ONE set of argument objects (float64 / integer arrays, nested lists) shared by all calls; half of them overwritten in
+    # place with doubled coordinates and evaluated again
+    for i, sp in enumerate(specs[ns[0] + ns[1]:]):
+        sp["container"] = [None, "array", "int", "list", "intlist", "array"][i % 6]
+        sp["edit"] = int(bool(sp["container"]) and i % 2 == 1)
     laws.run_sessions(ctx, specs, "V")
 
 
